@@ -10,6 +10,7 @@ import (
 	"flag"
 	"fmt"
 	"os"
+	"runtime/debug"
 
 	"github.com/formancehq/numscript/internal/verifsim/core"
 )
@@ -22,6 +23,9 @@ type engine struct {
 var engines = map[string]engine{}
 
 func main() {
+	// a runaway recursion in the code under test ends the process after 64 MB of stack instead
+	// of 1 GB (the deepest legitimate recursion here, a 330-operator chain, needs kilobytes)
+	debug.SetMaxStack(64 << 20)
 	var o core.WorkerOpts
 	var replay, countDistinct string
 	flag.StringVar(&o.Property, "prop", "", "property id")
